@@ -56,6 +56,15 @@ Fixpoint ls_check (fuel : nat) (X : list (list float)) (yc : list float) (lam t 
          ls_check fuel' X yc lam t w u dx du phi gdx slack (c_beta F * s) srec
   end.
 
+(* dual feasibility of a recorded dual point up to the rounding of X^T nu itself: near the
+   least-squares end (tiny lam) the entries of X^T nu are sums with heavy cancellation, so the slack
+   is relative to sum_i |x_ij| |nu_i|, not to lam *)
+Definition absdot (a b : list float) : float :=
+  fold_left (fun acc xy => acc + fabs (fst xy) * fabs (snd xy)) (combine a b) 0.
+Definition feasible_upto (p : nat) (X : list (list float)) (lam : float) (nu : list float) : bool :=
+  forallb (fun j => fle (fabs (dot F (col F j X) nu))
+                        (lam * (1 + 0x1p-40) + 0x1p-44 * absdot (col F j X) nu)) (seq 0 p).
+
 Definition tolK : float := 0x1.12e0be826d695p-30.   (* 1e-9 *)
 Definition tolP : float := 0x1.ad7f29abcaf48p-24.   (* 1e-7 *)
 Definition one_plus : float := 1 + 0x1p-40.
@@ -75,7 +84,7 @@ Definition check_iter (X : list (list float)) (yc : list float) (lam tol : float
   (* invariants of the transition system on the recorded state *)
   interior F (r_w r) (r_u r) &&
   fle dobj_prev (r_dobj r) &&
-  forallb (fun v => fle (fabs v) (lam * one_plus)) (mattvec F p X (r_nu r)) &&
+  feasible_upto p X lam (r_nu r) &&
   fle (r_dobj r) (r_pobj r + tolK * sc) &&
   flt 0 (r_tb r) &&
   (if r_stopped r then
@@ -151,11 +160,13 @@ Definition check_opt_inputs (y : list float) (lam tol : float) (max_iter : N) (r
   vclose12 (center F y) (n_y run).
 
 (* certificate on the final coefficients: exit through the gap rule => the returned w is within
-   ctol of the optimum of the objective the optimiser was handed (validator of Model.v, dual seed wd) *)
-Definition check_cert (X : list (list float)) (run : run_rec) (wd : list float) (ctol : float) : bool :=
-  match n_exit run with
-  | 0%N => check_gap_certificate F X (n_y run) (n_lam run) (n_wfinal run) wd (1 - 0x1p-30) ctol
-  | _ => true
+   ctol of the optimum of the objective the optimiser was handed (validator of Model.v, dual seed wd;
+   `shrink` <= 1 is chosen by the harness from the cancellation in X^T nu so that the validator's
+   EXACT feasibility test survives rounding, and the loss it causes is part of ctol) *)
+Definition check_cert (X : list (list float)) (run : run_rec) (wd : option (list float)) (shrink ctol : float) : bool :=
+  match n_exit run, wd with
+  | 0%N, Some wd => fle shrink 1 && check_gap_certificate F X (n_y run) (n_lam run) (n_wfinal run) wd shrink ctol
+  | _, _ => true     (* no gap exit, or no certificate attempted (penalty below the property's range) *)
   end.
 
 Definition res_close (a b : option (list float * float)) : bool :=
@@ -169,7 +180,7 @@ Definition res_close (a b : option (list float * float)) : bool :=
    result = what fit returned (None = Err). *)
 Definition corr_lasso (X : list (list float)) (y : list float) (alpha : float) (normalize : bool)
            (tol : float) (max_iter : N) (run : option run_rec) (result : option (list float * float))
-           (wd : list float) (ctol : float) : bool :=
+           (wd : option (list float)) (shrink ctol : float) : bool :=
   let n := length X in
   let p := ncols X in
   if negb (lasso_valid F n p (length y) alpha tol (N.to_nat max_iter)) then
@@ -189,14 +200,14 @@ Definition corr_lasso (X : list (list float)) (y : list float) (alpha : float) (
            (Some (if normalize then back_transform F (vmean F y) means stds (n_wfinal rn)
                   else (n_wfinal rn, vmean F y)))
        end) &&
-      check_cert Xs rn wd ctol
+      check_cert Xs rn wd shrink ctol
     | _, _ => false
     end.
 
 (* ElasticNet::fit *)
 Definition corr_enet (X : list (list float)) (y : list float) (alpha l1_ratio : float) (normalize : bool)
            (tol : float) (max_iter : N) (run : option run_rec) (result : option (list float * float))
-           (wd : list float) (ctol : float) : bool :=
+           (wd : option (list float)) (shrink ctol : float) : bool :=
   let n := length X in
   if negb (Nat.eqb (length y) n) then match run, result with None, None => true | _, _ => false end
   else
@@ -217,7 +228,7 @@ Definition corr_enet (X : list (list float)) (y : list float) (alpha l1_ratio : 
          res_close result
            (Some (if normalize then back_transform F (vmean F y) means stds wg else (wg, vmean F y)))
        end) &&
-      check_cert X2 rn wd ctol
+      check_cert X2 rn wd shrink ctol
     | _, _ => false
     end.
 
